@@ -68,14 +68,15 @@ func TestVerif_C08_Close(t *testing.T) {
 		flavour := rapid.SampledFrom([]string{"Close", "Close", "GracefulClose", "Conn.Close"}).Draw(rt, "flavour")
 		fromHandler := rapid.IntRange(0, 3).Draw(rt, "fromHandler") == 0
 		handlerState := rapid.SampledFrom([]ConnectionState{ConnectionStateChecking, ConnectionStateConnected}).Draw(rt, "handlerState")
+		handlerKind := rapid.SampledFrom([]string{"state", "state", "candidate", "selected-pair"}).Draw(rt, "handlerKind")
 		closers := rapid.IntRange(1, 3).Draw(rt, "closers")
 		stunMode := rapid.SampledFrom([]string{"now", "later", "never"}).Draw(rt, "stunMode")
 		turnMode := rapid.SampledFrom([]string{"ok", "allocate-blocks"}).Draw(rt, "turnMode")
 		closeErr := rapid.IntRange(0, 4).Draw(rt, "socketCloseError") == 0
 		closeStuck := rapid.IntRange(0, 4).Draw(rt, "socketCloseFailsAndReadStaysBlocked") == 0
 		slowHandler := rapid.IntRange(0, 3).Draw(rt, "slowCandidateHandler") == 0
-		desc := fmt.Sprintf("controlling=%v ops=%v closeAt=%d flavour=%s fromHandler=%v(%s) closers=%d stun=%s turn=%s closeErr=%v closeStuck=%v slowHandler=%v",
-			controlling, ops, closeAt, flavour, fromHandler, handlerState, closers, stunMode, turnMode, closeErr, closeStuck, slowHandler)
+		desc := fmt.Sprintf("controlling=%v ops=%v closeAt=%d flavour=%s fromHandler=%v(%s/%s) closers=%d stun=%s turn=%s closeErr=%v closeStuck=%v slowHandler=%v",
+			controlling, ops, closeAt, flavour, fromHandler, handlerKind, handlerState, closers, stunMode, turnMode, closeErr, closeStuck, slowHandler)
 
 		before, _ := c08Census()
 		fn := newFakeNet([]fnIface{{Name: "eth0", Up: true, Addrs: []string{"10.0.0.1"}}})
@@ -126,7 +127,7 @@ func TestVerif_C08_Close(t *testing.T) {
 			statesMu.Lock()
 			states = append(states, cs)
 			statesMu.Unlock()
-			if fromHandler && cs == handlerState && closedFromHandler.CompareAndSwap(false, true) {
+			if fromHandler && handlerKind == "state" && cs == handlerState && closedFromHandler.CompareAndSwap(false, true) {
 				if flavour == "GracefulClose" {
 					// documented: GracefulClose must not be called from inside a handler; use a fresh goroutine
 					go func() { _ = a.GracefulClose(); gracefulReturned.Store(true); closeReturned.Store(true) }()
@@ -136,8 +137,21 @@ func TestVerif_C08_Close(t *testing.T) {
 				}
 			}
 		})
+		closeFromHere := func() {
+			if closedFromHandler.CompareAndSwap(false, true) {
+				if flavour == "GracefulClose" {
+					go func() { _ = a.GracefulClose(); gracefulReturned.Store(true); closeReturned.Store(true) }()
+				} else {
+					_ = a.Close()
+					closeReturned.Store(true)
+				}
+			}
+		}
 		_ = a.OnCandidate(func(Candidate) {
 			defer onHandler()()
+			if fromHandler && handlerKind == "candidate" {
+				closeFromHere()
+			}
 			if slowHandler {
 				select {
 				case <-releaseSlow:
@@ -145,7 +159,12 @@ func TestVerif_C08_Close(t *testing.T) {
 				}
 			}
 		})
-		_ = a.OnSelectedCandidatePairChange(func(Candidate, Candidate) { defer onHandler()() })
+		_ = a.OnSelectedCandidatePairChange(func(Candidate, Candidate) {
+			defer onHandler()()
+			if fromHandler && handlerKind == "selected-pair" {
+				closeFromHere()
+			}
+		})
 		peerRole := "controlled"
 		if !controlling {
 			peerRole = "controlling"
